@@ -375,3 +375,58 @@ def feasibility_violation(op, x, scale_tol=1e-6):
             if v > worst:
                 worst, what = float(v), 'row %d of type %s' % (i, k)
     return worst / sc, what
+
+
+# ------------------------------------------------------------------ hypotheses of the assembly theorems, evaluated on the real asset problems
+def hyp_wf(rec):
+    """The generic theorems (C01, C04, C07, C09) are stated for asset problems satisfying well-formedness predicates
+    (EAO.C01.WF, EAO.C04.WF, EAO.C07.AssetWF, EAO.C09.WF / Local).  They are proved for the modelled builders; here they are
+    EVALUATED on every captured real asset problem (all asset classes, also unmodelled ones).  A failure means the code left the
+    domain of the theorems: reported as a broken tie (component 'hypothesis')."""
+    import scipy.sparse as sp
+    out = []
+    tg = rec['tg']
+    steps = set(int(i) for i in tg.I)
+    T = int(tg.T)
+    for a in rec['portf'].assets:
+        op = rec['captured'][a.name]
+        n = len(op.c)
+
+        def bad(msg):
+            out.append({'component': 'hypothesis', 'detail': 'asset %r (%s): %s' % (a.name, type(a).__name__, msg)})
+        if len(op.l) != n or len(op.u) != n:
+            bad('AssetWF.len: c, l, u have lengths %d, %d, %d' % (n, len(op.l), len(op.u)))
+            continue
+        if op.A is not None:
+            A = sp.csr_matrix(op.A)
+            if A.shape[1] != n:
+                bad('AssetWF.cols / Local.cols: matrix has %d columns for %d variables' % (A.shape[1], n))
+            if 'N' in (op.cType or ''):
+                bad('AssetWF.noN: asset rows of type N')
+        m = op.mapping
+        if m is None or len(m) == 0:
+            if n and np.any(np.asarray(op.c) != 0):
+                bad('C04.WF.rowless: variables without mapping row carry cost')
+            continue
+        idx = np.asarray(m.index, dtype=float)
+        if np.isnan(idx).any() or (idx < 0).any() or (idx >= n).any():
+            bad('WF.map: mapping index outside 0..%d' % (n - 1))
+            continue
+        if (m['asset'].astype(str) != a.name).any():
+            bad('WF.map: mapping row names another asset')
+        st = set(int(t) for t in m['time_step'].values)
+        if not st <= steps or (st and max(st) >= T):
+            bad('WF.disp / C04.WF.map: mapping step not on the grid')
+        d = m[m['type'] == 'd']
+        nn = set(str(x) for x in d['node'].values)
+        if not nn <= set(x.name for x in a.nodes):
+            bad('WF.disp: dispatch row at a node that is not one of the asset\'s nodes: %s' % sorted(nn - set(x.name for x in a.nodes))[:2])
+        mapped = set(int(i) for i in m.index)
+        for j in range(n):
+            if j not in mapped and op.c[j] != 0:
+                bad('C04.WF.rowless: variable %d has no mapping row but cost %s' % (j, op.c[j]))
+                break
+    names = [a.name for a in rec['portf'].assets]
+    if len(set(names)) != len(names):
+        out.append({'component': 'hypothesis', 'detail': 'asset names not distinct'})
+    return out
